@@ -12,6 +12,8 @@ import (
 	"fmt"
 	"net"
 	"os"
+	"runtime"
+	"runtime/debug"
 	"strconv"
 	"strings"
 	"time"
@@ -106,14 +108,20 @@ type runner struct {
 type ex struct {
 	r    *runner
 	hist []string
+	gc   int
 }
 
-func (P) NewExec() core.Exec { return &ex{r: &runner{}} }
+// While a case runs the garbage collector is off: an upstream connection that Proxy forgot to close
+// would otherwise be closed by its finalizer at the next collection (often within milliseconds) and
+// the leak would look like a close. (GOMEMLIMIT, set by ./check, still bounds the heap.)
+func (P) NewExec() core.Exec { return &ex{r: &runner{}, gc: debug.SetGCPercent(-1)} }
 
 func (e *ex) Close() {
 	if e.r.s != nil {
 		e.r.s.teardown()
 	}
+	debug.SetGCPercent(e.gc)
+	runtime.GC()
 }
 
 func splitRep(op string) (int, []string) {
@@ -141,6 +149,7 @@ func (e *ex) Do(op string) core.Result {
 		if e.r.s == nil {
 			return core.Result{Impl: "bad-op"}
 		}
+		e.r.s.stable()
 		return core.Result{Impl: e.r.s.obs()}
 	}
 	e.hist = append(e.hist, op)
@@ -445,12 +454,10 @@ func (s *session) obs() string {
 	if s.isReturned() {
 		ret = 1
 	}
-	_, _, ended := s.sstat.get()
 	sc := "open"
 	if s.mode != "ok" {
 		sc = "none" // tls.Dial never returned a connection
-	} else if ended || (s.sReset && ret == 1) {
-		// after a reset by the server itself the proxy's close cannot be observed any more
+	} else if s.upstreamClosed() {
 		sc = "closed"
 	}
 	return fmt.Sprintf("returned=%d sc=%s left=%s", ret, sc, kindsOf(s.mine()))
@@ -503,7 +510,7 @@ wait:
 		}
 	}
 	if !v.returned {
-		gs := s.mine()
+		gs := s.stable()
 		v.obs = s.obs()
 		if s.termed {
 			site := "none"
@@ -530,7 +537,11 @@ wait:
 	}
 	// the caller of Proxy (Proxy.handleLoop) closes the client connection afterwards
 	s.proxyEnd.Close()
-	closedSeen := s.mode != "ok" || s.sReset || waitFor(scale(closeBound), func() bool { _, _, e := s.sstat.get(); return e })
+	closedSeen := s.mode != "ok" || waitFor(scale(closeBound), s.upstreamClosed)
+	if os.Getenv("C10_DEBUG") != "" {
+		_, _, e := s.sstat.get()
+		fmt.Fprintf(os.Stderr, "finish: closedSeen=%v inode=%q fdOpen=%v serverEnded=%v err=%q\n", closedSeen, s.scInode, fdOpen(s.scInode), e, s.sstat.endErr)
+	}
 	if closedSeen {
 		waitFor(scale(leakBound), func() bool { return len(s.mine()) == 0 })
 	}
@@ -542,7 +553,7 @@ wait:
 	switch {
 	case !closedSeen:
 		v.sig = "c10:upstream-open-after-return"
-		v.fail = fmt.Sprintf("Config.Proxy returned after %q but the TLS server saw no EOF/close on its accepted connection within %v", s.termWhy, closeBound)
+		v.fail = fmt.Sprintf("Config.Proxy returned after %q but %v later its end of the upstream connection is still open (file descriptor present, no EOF/close seen by the TLS server)", s.termWhy, closeBound)
 	case len(left) > 0:
 		v.sig = "c10:goroutines-left:" + kindsOf(left)
 		v.fail = fmt.Sprintf("Config.Proxy returned after %q and the client connection was closed, but %v later session goroutines remain: %s\n%s",
